@@ -15,7 +15,8 @@ RULE = (
     "(1e-9), every non-target with a position is flat, cash fraction == 1 - (1-c) x sum(w); otherwise each target's value is within one unit + the rebalance's costs of (1-c) x w x base and "
     "total value dropped by exactly the recorded costs; a sub-strategy target's value moved to its target and its children moved in proportion to their weights before. "
     "over_time: RebalanceOverTime(n) driven for n+1 consecutive dates with moving prices: after call k the gap to target is (n-k)/(n-k+1) of the gap before the call, after call n the "
-    "weights equal the targets, call n+1 trades nothing. non-trivial = prior portfolio non-empty and different from the target. distinct = distinct spec hashes."
+    "weights equal the targets, call n+1 trades nothing. over_time_rearm: a transition replaced by new targets before it has finished (the first arming optionally with a cash fraction): the "
+    "second transition is n equal steps to the new targets, non-targets closed, cash fraction 1 - sum(w), nothing of the first arming survives. non-trivial = prior portfolio non-empty and different from the target. distinct = distinct spec hashes."
 )
 ASSUMPTIONS = ["commission specs obey C05's domain (one-unit commission + half spread below the unit price)", "tolerance 1e-9 on weights, 1e-9 x value + 1e-6 on money"]
 BUILDS = {"quick": ["py"], "thorough": ["py", "cy"]}
@@ -310,10 +311,86 @@ def case_over_time(ctx, spec):
     return {"nontrivial": moved, "labels": ["n=%d" % n]}
 
 
-SUBS = {"rebalance": case_rebalance, "over_time": case_over_time}
-STRATS = {"rebalance": rebalance_spec, "over_time": over_time_spec}
+@st.composite
+def rearm_spec(draw):
+    spec = draw(over_time_spec())
+    spec["n"] = draw(st.integers(2, 5))
+    tickers = sorted(spec["p0"])
+    spec["targets2"] = draw(weights(draw(st.lists(st.sampled_from(tickers), min_size=1, max_size=len(tickers), unique=True)), gross_max=1.0))
+    spec["rearm_after"] = draw(st.integers(1, spec["n"] - 1))
+    spec["cash1"] = draw(st.sampled_from([None, None, 0.2, 0.4]))
+    return spec
+
+
+def case_over_time_rearm(ctx, spec):
+    """a transition that is replaced by a new set of targets before it has finished: the second transition is n equal steps from
+    wherever the first one got to, to the new targets - nothing of the first arming (its targets, its cash fraction) survives"""
+    bt = ctx.bt
+    n = spec["n"]
+    j = spec["rearm_after"]
+    dates = [D0 + pd.Timedelta(days=i) for i in range(j + n + 3)]
+    try:
+        s, data, fee = build(bt, spec, dates)
+        for t, w in spec["prior"].items():
+            s.rebalance(w, t, base=spec["capital"])
+        s.update(dates[0])
+    except Exception as e:
+        raise Discard("setup raised %s" % type(e).__name__)
+    algo = bt.algos.RebalanceOverTime(n)
+    t1, t2 = spec["targets"], spec["targets2"]
+    moved = False
+    for k in range(1, j + n + 2):
+        s.update(dates[k])
+        if s.value <= 0 or s.bankrupt:
+            raise Discard("insolvent")
+        s.temp = {}
+        if k == 1:
+            s.temp = {"weights": dict(t1)}
+            if spec["cash1"] is not None:
+                s.temp["cash"] = spec["cash1"]
+        elif k == j + 1:
+            s.temp = {"weights": dict(t2)}
+        cur = {t: (s.children[t].weight if t in s.children else 0.0) for t in t2}
+        pos_before = {c: ch.position for c, ch in s.children.items()}
+        try:
+            algo(s)
+        except Exception as e:
+            raise Violation("RebalanceOverTime raised %s: %s" % (type(e).__name__, str(e)[:150]), signature="c06:rot-raises")
+        if k <= j:
+            continue  # the first transition is the plain over_time sub-check's business
+        step = k - j  # 1..n within the second transition
+        if step <= n:
+            left = n - step + 1
+            for t, w in t2.items():
+                exp = cur[t] + (w - cur[t]) / left
+                got = s.children[t].weight if t in s.children else 0.0
+                if abs(got - exp) > 1e-9:
+                    raise Violation(
+                        "RebalanceOverTime(%d) re-armed after %d steps (first arming: %s, cash %s): step %d towards %s leaves %s at %r, expected %r" % (n, j, t1, spec["cash1"], step, t2, t, got, exp),
+                        signature="c06:rot-rearm-step",
+                    )
+                if abs(w - cur[t]) > 1e-9:
+                    moved = True
+            if step == n:
+                for c, ch in s.children.items():
+                    if c not in t2 and ch.position != 0:
+                        raise Violation("RebalanceOverTime re-armed: %s is not a target any more but still holds %r" % (c, ch.position), signature="c06:rot-rearm-open")
+                got_cash = s.capital / s.value
+                exp_cash = 1.0 - sum(t2.values())
+                if abs(got_cash - exp_cash) > 1e-9:
+                    raise Violation("RebalanceOverTime re-armed: cash fraction after the last step is %r, expected %r" % (got_cash, exp_cash), signature="c06:rot-rearm-cash")
+        else:
+            for c, ch in s.children.items():
+                if ch.position != pos_before.get(c, 0.0):
+                    raise Violation("RebalanceOverTime kept trading after the re-armed transition had finished", signature="c06:rot-extra")
+    return {"nontrivial": moved, "labels": ["n=%d" % n, "rearm_after=%d" % j] + (["cash_on_first_arming"] if spec["cash1"] else [])}
+
+
+SUBS = {"rebalance": case_rebalance, "over_time": case_over_time, "over_time_rearm": case_over_time_rearm}
+STRATS = {"rebalance": rebalance_spec, "over_time": over_time_spec, "over_time_rearm": rearm_spec}
 
 
 def shard(ctx):
     run_sub(ctx, "rebalance", rebalance_spec(), lambda s: case_rebalance(ctx, s), ctx.n(4000, 60000))
     run_sub(ctx, "over_time", over_time_spec(), lambda s: case_over_time(ctx, s), ctx.n(1000, 15000))
+    run_sub(ctx, "over_time_rearm", rearm_spec(), lambda s: case_over_time_rearm(ctx, s), ctx.n(600, 9000))
